@@ -45,11 +45,13 @@ func init() {
 	caseGens["C17"] = caseGen{count: c17Count, gen: c17Gen}
 }
 
+const c17NQ = 9 // cases per round: 5 traced + 4 race-detector runs
+
 func c17Count(tier string) int {
 	if tier == "thorough" {
-		return 28
+		return 3 * c17NQ
 	}
-	return 7
+	return c17NQ
 }
 
 // ---------------------------------------------------------------------------------------------
@@ -63,12 +65,15 @@ type c17Cfg struct {
 	yield   int    // percentage of hook calls that yield
 	saveGap bool   // wait for the status thread's delayed save before Start (viper store candidate)
 	narch   int    // number of raw-data-block requests
+	long    bool   // tri only: blocks of 2.5 s, so that ONE block closes several 1-second trigger-rate periods
+	quiet   int    // ms of run time without control requests while files are written: the status thread's delayed
+	               // save (2 s after the last change of a saved setting) fires while core-loop status messages keep coming
 	seed    uint64
 }
 
 func (c c17Cfg) String() string {
-	return fmt.Sprintf("kind %s src %s nchan %d runms %d yield %d savegap %d narch %d", c.kind, c.src, c.nchan, c.runMs,
-		c.yield, b2i(c.saveGap), c.narch)
+	return fmt.Sprintf("kind %s src %s nchan %d runms %d yield %d savegap %d narch %d long %d quiet %d", c.kind, c.src, c.nchan,
+		c.runMs, c.yield, b2i(c.saveGap), c.narch, b2i(c.long), c.quiet)
 }
 
 var c17Once sync.Once
@@ -243,7 +248,11 @@ func c17Run(cfg c17Cfg) string {
 	nchan := cfg.nchan
 	switch cfg.src {
 	case "tri":
-		note(sc.ConfigureTriangleSource(&dastard.TriangleSourceConfig{Nchan: nchan, SampleRate: 100000, Min: 100, Max: 1100}, &ok))
+		tc := &dastard.TriangleSourceConfig{Nchan: nchan, SampleRate: 100000, Min: 100, Max: 1100}
+		if cfg.long {
+			tc = &dastard.TriangleSourceConfig{Nchan: nchan, SampleRate: 1000, Min: 100, Max: 1350} // 2500 samples = 2.5 s per block
+		}
+		note(sc.ConfigureTriangleSource(tc, &ok))
 		name = "TRIANGLESOURCE"
 		_ = tri
 	case "sim":
@@ -305,6 +314,17 @@ func c17Run(cfg c17Cfg) string {
 		WriteOFF: true, WriteLJH3: true}, &ok))
 	pause()
 	note(sc.SetExperimentStateLabel(&dastard.StateLabelConfig{Label: "A", WaitForError: true}, &ok))
+	comment := "c17 comment"
+	note(sc.WriteComment(&comment, &ok))
+	var zero int
+	var text string
+	note(sc.ReadComment(&zero, &text)) // computes the writing state on the client's thread while blocks are processed
+	if cfg.quiet > 0 {
+		// no request for a while: the status thread saves the configuration 2 s after the last change of a saved setting,
+		// while the core loop keeps sending TRIGGERRATE / NUMBERWRITTEN messages and the heartbeat goroutine ALIVE
+		time.Sleep(time.Duration(cfg.quiet) * time.Millisecond)
+		note(sc.ReadComment(&zero, &text))
+	}
 	// raw-data blocks archived
 	var archives []string
 	for i := 0; i < cfg.narch; i++ {
@@ -323,8 +343,7 @@ func c17Run(cfg c17Cfg) string {
 	pause()
 	note(sc.WriteControl(&dastard.WriteControlConfig{Request: "UNPAUSE B"}, &ok))
 	pause()
-	comment := "c17 comment"
-	note(sc.WriteComment(&comment, &ok))
+	note(sc.ReadComment(&zero, &text))
 	note(sc.WriteControl(&dastard.WriteControlConfig{Request: "STOP"}, &ok))
 	pause()
 	note(sc.ConfigurePulseLengths(dastard.SizeObject{Nsamp: 48, Npre: 12}, &ok))
@@ -559,9 +578,11 @@ func c17Gen(r *Rng, tier string, idx int) (string, func() string) {
 		// we are the -race child: run exactly the scenario the parent drew, in this process, hooks quiet
 		var cfg c17Cfg
 		var sg int
-		fmt.Sscanf(inner, "kind %s src %s nchan %d runms %d yield %d savegap %d narch %d", &cfg.kind, &cfg.src, &cfg.nchan,
-			&cfg.runMs, &cfg.yield, &sg, &cfg.narch)
+		var lg int
+		fmt.Sscanf(inner, "kind %s src %s nchan %d runms %d yield %d savegap %d narch %d long %d quiet %d", &cfg.kind, &cfg.src,
+			&cfg.nchan, &cfg.runMs, &cfg.yield, &sg, &cfg.narch, &lg, &cfg.quiet)
 		cfg.saveGap = sg != 0
+		cfg.long = lg != 0
 		return inner, func() string {
 			dastard.VerifC17Quiet(true)
 			dastard.VerifC17Yield(cfg.yield)
@@ -570,30 +591,35 @@ func c17Gen(r *Rng, tier string, idx int) (string, func() string) {
 	}
 	cfg := c17Cfg{seed: r.s}
 	srcs := []string{"abaco", "tri", "lancero", "sim"}
-	nq := c17Count("quick")
-	switch {
-	case idx%nq < 4:
-		cfg.kind = "trace"
-		cfg.src = srcs[idx%nq]
-	default:
-		cfg.kind = "race"
-		cfg.src = srcs[(idx%nq-4+idx/nq)%4]
-	}
+	k := idx % c17NQ
+	round := idx / c17NQ
 	cfg.nchan = r.Pick(2, 3, 4)
-	if cfg.src == "lancero" {
-		cfg.nchan = r.Pick(4, 6)
-	}
 	cfg.yield = r.Pick(0, 5, 15, 30)
 	cfg.narch = 2
-	if cfg.kind == "race" {
-		cfg.runMs = r.Pick(1500, 2500)
-		cfg.saveGap = true
-		if tier == "thorough" {
-			cfg.runMs = r.Pick(3000, 6000)
-		}
-	} else {
+	switch {
+	case k < 4: // traced runs of the four sources; one of them with the quiet phase (the delayed save fires during the run)
+		cfg.kind = "trace"
+		cfg.src = srcs[k]
 		cfg.runMs = r.Pick(500, 800)
-		cfg.saveGap = idx%nq == 1 // one traced run per round includes the status thread's delayed save
+		if k == (1+round)%4 {
+			cfg.quiet = 2600
+		}
+	case k == 4: // traced run with blocks longer than the trigger-rate reporting period
+		cfg.kind, cfg.src, cfg.long, cfg.runMs, cfg.narch = "trace", "tri", true, 6000, 1
+	case k < 8: // race-detector runs: three of the four sources per round, quiet phase, one with a save before Start
+		cfg.kind = "race"
+		cfg.src = srcs[(k-5+round)%4]
+		cfg.runMs = r.Pick(1500, 2500)
+		cfg.quiet = 2600
+		cfg.saveGap = k == 5
+		if tier == "thorough" {
+			cfg.runMs = r.Pick(3000, 5000)
+		}
+	default: // race-detector run with long blocks
+		cfg.kind, cfg.src, cfg.long, cfg.runMs, cfg.narch = "race", "tri", true, 6000, 1
+	}
+	if cfg.src == "lancero" {
+		cfg.nchan = r.Pick(4, 6)
 	}
 	in := cfg.String()
 	if cfg.kind == "race" {
